@@ -429,7 +429,16 @@ fn apply_content_edits_with_content(
 
     for (before, after, start, end) in replacements.iter().rev() {
         // Validate the replacement matches expected content
-        let actual = &original_content[*start..*end];
+        let Some(actual) = original_content.get(*start..*end) else {
+            return Err(anyhow!(
+                "Content mismatch in {}: expected '{}' at bytes {}..{}, but these offsets are out of range or not on a character boundary (file length {})",
+                path.display(),
+                before,
+                start,
+                end,
+                original_content.len()
+            ));
+        };
         if actual != before {
             return Err(anyhow!(
                 "Content mismatch in {}: expected '{}', found '{}'",
@@ -439,7 +448,15 @@ fn apply_content_edits_with_content(
             ));
         }
 
-        // Apply the replacement
+        // Apply the replacement (edits that overlap or repeat an earlier one may no longer fit)
+        if modified.get(*start..*end).is_none() {
+            return Err(anyhow!(
+                "Content mismatch in {}: the edit at bytes {}..{} overlaps another edit of the plan",
+                path.display(),
+                start,
+                end
+            ));
+        }
         modified.replace_range(*start..*end, after);
     }
 
